@@ -32,7 +32,14 @@ class Band(scen.Follower):
 class C09(scen.WorldProp):
     id = "C09"
     lean_module = "Wheatley.Props.C09"
-    theorems = []
+    theorems = ["Wheatley.C09.wait_holds",
+                "Wheatley.C09.poll_returns_to_test",
+                "Wheatley.C09.expect_arms",
+                "Wheatley.C09.early_only_by_strike",
+                "Wheatley.C09.strike_disarms_only_itself",
+                "Wheatley.C09.own_strike_disarms",
+                "Wheatley.C09.expect_keeps_armed",
+                "Wheatley.C09.keep_going_never_waits"]
     level_text = ("theorems: while a user-controlled bell is in the expected set of the stroke being rung the wait "
                   "loop only sleeps (no strike, no progress); expect_bell puts every not-yet-heard human bell of the "
                   "row into that set; only a strike of that bell on that stroke (or Look To / Stop Touch) takes it "
